@@ -441,7 +441,8 @@ def check_C08(rep, fl):
     check_no_dup(rep, fl)
     check_clear_drops(rep, fl)
     check_live_drops(rep, fl)
-    props_life.check_cleaner(rep, fl)
+    # a New item that clear() discards from the buffer is handed to on_evict (how far the drain goes is C11's)
+    props_store.keep_sites(rep, fl, props_life.check_cleaner, ("buffered New => on_evict", "drain loop"))
     props_life.check_remove_pair(rep, fl)
     props_store.check_store_writes(rep, fl)
     props_life.check_no_err_between(rep, fl)
